@@ -4,8 +4,16 @@ PROP = dict(
         models=[
             dict(module="Gzip", cfg=dict(quick="Gzip_quick.cfg", thorough="Gzip_thorough.cfg"), emit=True, workers=8,
                  coverage=True, timeout=dict(quick=300, thorough=1800)),
+            # extension: validators, conditional and range requests of the static file server with precompressed
+            # siblings and the gzip middleware (specs/StaticCond.tla, notes/StaticCond.md): liveness on the quick
+            # constants (thorough tier only, must run before the emitting job of the same module), then
+            # invariants + one CASE per two-step behaviour
+            dict(module="StaticCond", cfg=dict(thorough="StaticCondLive.cfg"), workers=8, timeout=dict(thorough=600)),
+            dict(module="StaticCond", cfg=dict(quick="StaticCond_quick.cfg", thorough="StaticCond_thorough.cfg"), emit=True, workers=8,
+                 coverage=True, timeout=dict(quick=300, thorough=900)),
         ],
-        go=[dict(pkg="c18", test="TestC18", timeout=dict(quick=600, thorough=3000))],
+        go=[dict(pkg="c18", test="TestC18", timeout=dict(quick=600, thorough=3000)),
+            dict(pkg="cx18cond", test="TestCx18Cond", timeout=dict(quick=300, thorough=900))],
         exhaustive=dict(quick=False, thorough=False),
         technique="TLA+ spec Gzip.tla (request filters, header-time decision, writes/flushes, close; static sibling choice) model-checked by TLC; every emitted case executed on a real casket site with and without the gzip block (raw HTTP/1.1 client) and the pair of wire responses judged by the declarative property",
         level_text="TLC checks exhaustively on bounded alphabets (gzip blocks, 4 paths, up to 13 Accept-Encoding values, inner responses: 5 statuses x Content-Type x Content-Length x 6 pre-existing codings x 3 ETag kinds x explicit/implicit WriteHeader x 13 write/flush patterns; static files with all 8 sibling sets) that the code-shaped model satisfies DecodedEqualsIdentity, CENamesAppliedCodings, NoDoubleEncoding, CLAbsentOrCorrect, IdentityIfNotOffered. Each case is then run twice on a real instance (site with / without the gzip block, scripted innermost handler or the real static file server) and the two wire responses are compared after strict gzip decoding. Bounded model checking plus paired-execution conformance replay.",
